@@ -423,8 +423,9 @@ fn layout_comment_is_inline_trailing(
         return false;
     };
 
+    // A long comment that starts behind a statement is its trailing comment even when it spans
+    // several lines: the statement prints it, so printing it here as well would duplicate it.
     has_non_trivia_before_on_same_line_tokenwise(&comment_node)
-        && !comment_node.text().contains_char('\n')
         && !has_inline_non_trivia_after(&comment_node)
 }
 
